@@ -26,7 +26,7 @@ class Truncate(Family):
     doc = "process.truncate on symbolic series and symbolic bounds (absolute or ratio)"
 
     def configs(self, tier):
-        Ls = (2, 3, 4, 5) if tier == "quick" else (2, 3, 4, 5, 6, 7)
+        Ls = (2, 3, 4, 5, 6) if tier == "quick" else (2, 3, 4, 5, 6, 7, 8)
         return [{"L": L, "lr": lr, "rr": rr} for L in Ls for lr in (False, True) for rr in (False, True)]
 
     def run(self, ctx, inst, L, lr, rr):
@@ -55,7 +55,7 @@ class WeaverTruncate(Family):
     doc = "Weaver.truncate_by_value cuts working and reference series each by the same bounds (also after a reshape)"
 
     def configs(self, tier):
-        Ls = (3, 4) if tier == "quick" else (3, 4, 5)
+        Ls = (3, 4, 5) if tier == "quick" else (3, 4, 5, 6)
         return [{"L": L, "reshaped": rs, "lr": lr, "rr": rr} for L in Ls for rs in (False, True)
                 for (lr, rr) in ((False, False), (True, True), (False, True))]
 
@@ -96,7 +96,7 @@ class SliceByValue(Family):
     doc = "Weaver.slice_by_value(start, stop): precisely the samples with start <= x <= stop; omitted bound = end of series"
 
     def configs(self, tier):
-        Ls = (2, 3, 4) if tier == "quick" else (2, 3, 4, 5, 6)
+        Ls = (2, 3, 4, 5) if tier == "quick" else (2, 3, 4, 5, 6, 7)
         return [{"L": L, "start": s, "stop": e} for L in Ls for s in ("omitted", "none", "sym") for e in ("omitted", "none", "sym")]
 
     def run(self, ctx, inst, L, start, stop):
@@ -136,7 +136,7 @@ class ByIndex(Family):
     doc = "slice_by_index / truncate_by_index agree with Python slice semantics for all in-range start/stop(/step)"
 
     def configs(self, tier):
-        Ls = (1, 2, 3, 4) if tier == "quick" else (1, 2, 3, 4, 5, 6)
+        Ls = (1, 2, 3, 4, 5) if tier == "quick" else (1, 2, 3, 4, 5, 6, 7)
         return [{"L": L} for L in Ls]
 
     def run(self, ctx, inst, L):
@@ -174,8 +174,8 @@ META = {
                    "last abscissa) are separate solver-checked paths; on each path the selected run is compared "
                    "element by element (identical terms) with the run chosen by a declarative oracle. Index-based "
                    "operations are enumerated over all in-range start/stop/step and compared with Python slicing.",
-    "bounds": {"quick": "series of 2..5 points (truncate), 3..4 (Weaver, incl. after a reshape), 2..4 (slice by value), "
-                        "1..4 (indices, steps 1..3)", "thorough": "up to 7 / 5 / 6 / 6 points"},
+    "bounds": {"quick": "series of 2..6 points (truncate), 3..5 (Weaver, incl. after a reshape), 2..5 (slice by value), "
+                        "1..5 (indices, steps 1..3)", "thorough": "up to 8 / 6 / 7 / 7 points"},
     "outside": ["longer series", "float rounding in the ratio conversion"],
     "assumptions": ["x strictly increasing", "left < right (otherwise ValueError, see C20)",
                     "slice_by_value: given bounds are samples of x (otherwise ValueError, see C20), start <= stop"],
